@@ -484,6 +484,12 @@ where
     EF: ExtensionField<F>,
 {
     let num_phases = log_arities.len();
+    // No fold phase (every committed matrix already has the final polynomial's height): the
+    // native verifier accepts such a proof and compares the reduced opening with the final
+    // polynomial directly; there is no subgroup start to compute.
+    if num_phases == 0 {
+        return Vec::new();
+    }
     let one = builder.define_const(EF::ONE);
 
     // log_folded_height[i] = log_max_height - cumulative_bits[i+1]
@@ -1492,12 +1498,6 @@ where
     {
         return Err(VerificationError::InvalidProofShape(
             "all index_bits_per_query entries must have same length".to_string(),
-        ));
-    }
-
-    if betas.is_empty() {
-        return Err(VerificationError::InvalidProofShape(
-            "FRI must have at least one fold phase".to_string(),
         ));
     }
 
